@@ -200,7 +200,8 @@ class C09(Scenario):
 
     def generate(self, rng, tier, profile):
         sp, recs, fills, fills2 = gen_base(rng, tier, max_fill=14)
-        case = {"spec": sp, "records": [specmod.enc_record(r) for r in recs], "fills": fills, "fills2": fills2, "kind": profile}
+        case = {"spec": sp, "records": [specmod.enc_record(r) for r in recs], "fills": fills, "fills2": fills2, "kind": profile,
+                "scales": rng.fork("scales").pick([None, None, None, None, None, [2.0], [0.5, 3]]) if profile == "document" else None}
         if profile == "delivery":
             f = rng.fork("faults")
             n = max(1, len(fills))
